@@ -358,27 +358,29 @@ def _validate(traces, tmp, workers, cov):
     verdicts, diverged = {}, {}
     for split, cfg in ((False, "Trace_KernelOutput.cfg"),
                        (True, "Trace_KernelOutput_split.cfg")):
-        part = [t for t in traces if t["split"] == split]
-        if not part:
-            continue
-        path = os.path.join(tmp, f"traces-{int(split)}.json")
-        with open(path, "w") as fout:
-            json.dump([_tlc_case(t) for t in part], fout, separators=(",", ":"))
-        res = core.run_tlc("Trace_KernelOutput.tla", cfg, env={"PV_CASES": path},
-                           workers=workers, timeout=3000)
-        cov["states"] += res.distinct
-        cov["transitions"] += res.generated
-        # non-vacuity: every trace is consumed to its end: one state per
-        # event, the initial state and the verdict state
-        expect = sum(len(t["events"]) + 2 for t in part)
-        if res.distinct != expect:
-            raise core.MachineryError(
-                f"C29 trace validation did not consume every trace: {res.distinct} "
-                f"states, expected {expect}")
-        for item in res.printed("VERDICT"):
-            verdicts[item["id"]] = item
-        for item in res.printed("DIVERGE"):
-            diverged[item["id"]] = item
+        every = [t for t in traces if t["split"] == split]
+        # batches of <= 4000 traces (about 20 MB of JSON) per TLC run
+        for lo in range(0, len(every), 4000):
+            part = every[lo:lo + 4000]
+            path = os.path.join(tmp, f"traces-{int(split)}-{lo}.json")
+            with open(path, "w") as fout:
+                json.dump([_tlc_case(t) for t in part], fout, separators=(",", ":"))
+            res = core.run_tlc("Trace_KernelOutput.tla", cfg, env={"PV_CASES": path},
+                               workers=workers, timeout=3000)
+            os.unlink(path)
+            cov["states"] += res.distinct
+            cov["transitions"] += res.generated
+            # non-vacuity: every trace is consumed to its end: one state per
+            # event, the initial state and the verdict state
+            expect = sum(len(t["events"]) + 2 for t in part)
+            if res.distinct != expect:
+                raise core.MachineryError(
+                    f"C29 trace validation did not consume every trace: "
+                    f"{res.distinct} states, expected {expect}")
+            for item in res.printed("VERDICT"):
+                verdicts[item["id"]] = item
+            for item in res.printed("DIVERGE"):
+                diverged[item["id"]] = item
     return verdicts, diverged
 
 
@@ -472,7 +474,7 @@ def run(tier):
 
     # 1. design level: all interleavings of <= 3 runs -------------------------
     res = _model_tlc("KernelOutput.tla", "KernelOutput_multiple.cfg", check=False,
-                       workers=workers, coverage=not quick)
+                     workers=workers, coverage=not quick)
     if res.invariant_violated or res.error:
         raise core.MachineryError("KernelOutput.tla ('multiple', 3 runs, split writes) "
                                   "violates its invariants: "
@@ -483,7 +485,7 @@ def run(tier):
     if not quick:
         cov["model_action_coverage"] = {k: v[0] for k, v in res.coverage().items()}
     res = _model_tlc("KernelOutput.tla", "KernelOutput_single.cfg", check=False,
-                       workers=workers)
+                     workers=1)           # one worker: a deterministic counter-example
     if res.error:
         raise core.MachineryError("KernelOutput_single.cfg: " + res.error)
     cov["states"] += res.distinct
